@@ -940,8 +940,11 @@ _RT = {'C01': [('mutant',
  'C04': [('mutant',
           'rt-epd-objectNA-sign',
           [('optiland/paraxial.py',
-            'z = self.EPL() - obj_z\n            return 2 * z * np.tan(u0)',
-            'z = self.EPL() + obj_z\n            return 2 * z * np.tan(u0)')]),
+            'z = self.EPL() - obj_z\n            # a diameter: the entrance '
+            'pupil may lie behind the object\n            return 2 * np.abs(z) '
+            '* np.tan(u0)',
+            'z = self.EPL() + obj_z\n            return 2 * np.abs(z) * '
+            'np.tan(u0)')]),
          ('mutant',
           'rt-chief-ray-wrong-sign',
           [('optiland/paraxial.py',
